@@ -1,32 +1,48 @@
-//! Counting global allocator (C11): live heap bytes of the whole harness process.
+//! Counting global allocator (C11): live heap bytes held by the harness' main thread (the thread
+//! that calls the crate). Other threads (the watchdog) are not counted, so their bookkeeping
+//! cannot race with a measurement.
 use std::alloc::{GlobalAlloc, Layout, System};
+use std::cell::Cell;
 use std::sync::atomic::{AtomicUsize, Ordering};
 
 pub struct Counting;
 static LIVE: AtomicUsize = AtomicUsize::new(0);
+thread_local! {
+    static COUNTED: Cell<bool> = const { Cell::new(false) };
+}
+/// Called once by the main thread before anything is measured.
+pub fn count_this_thread() {
+    COUNTED.with(|c| c.set(true));
+}
+#[inline]
+fn counted() -> bool {
+    COUNTED.try_with(|c| c.get()).unwrap_or(false)
+}
 
 unsafe impl GlobalAlloc for Counting {
     unsafe fn alloc(&self, l: Layout) -> *mut u8 {
         let p = System.alloc(l);
-        if !p.is_null() {
+        if !p.is_null() && counted() {
             LIVE.fetch_add(l.size(), Ordering::Relaxed);
         }
         p
     }
     unsafe fn dealloc(&self, p: *mut u8, l: Layout) {
         System.dealloc(p, l);
-        LIVE.fetch_sub(l.size(), Ordering::Relaxed);
+        if counted() {
+            LIVE.fetch_sub(l.size(), Ordering::Relaxed);
+        }
     }
     unsafe fn alloc_zeroed(&self, l: Layout) -> *mut u8 {
         let p = System.alloc_zeroed(l);
-        if !p.is_null() {
+        if !p.is_null() && counted() {
             LIVE.fetch_add(l.size(), Ordering::Relaxed);
         }
         p
     }
     unsafe fn realloc(&self, p: *mut u8, l: Layout, new_size: usize) -> *mut u8 {
         let q = System.realloc(p, l, new_size);
-        if !q.is_null() {
+        if !q.is_null() && counted() {
             LIVE.fetch_sub(l.size(), Ordering::Relaxed);
             LIVE.fetch_add(new_size, Ordering::Relaxed);
         }
